@@ -324,7 +324,17 @@ func replayCase(t *testing.T, check string, raw json.RawMessage) {
 	if tr == nil {
 		t.Fatalf("replay: face %s#%d is not in the corpus libharfbuzz accepts", cs.File, cs.Index)
 	}
-	c, reason := openFace(*tr)
+	var c *fctx
+	var reason string
+	if cs.Edit != "" {
+		kind := editByName(cs.Edit)
+		if kind == nil {
+			t.Fatalf("replay: unknown edit kind %q", cs.Edit)
+		}
+		c, reason = openEdited(t, *tr, kind, cs.EditSeed)
+	} else {
+		c, reason = openFace(*tr)
+	}
 	if c == nil {
 		t.Fatalf("replay: %s", reason)
 	}
@@ -358,5 +368,207 @@ func TestReplay(t *testing.T) {
 		}
 		replayCase(t, check, raw)
 		ev.CaseEnum(1, 1)
+	}
+}
+
+// ---------------------------------------------------------------------------------------------
+// edited fonts
+
+// openEdited applies an edit to a corpus font and opens the edited bytes in every decoder.
+// reason != "" : the edit does not apply or a reference rejects the result (counted by the caller).
+func openEdited(t ev.TB, tr faceTraits, kind *editKind, seed uint64) (*fctx, string) {
+	orig, err := os.ReadFile(absCorpus(tr.File))
+	if err != nil {
+		return nil, "edit-skipped:unreadable"
+	}
+	data, _, ok := applyEdit(orig, kind, seed)
+	if !ok {
+		return nil, "edit-skipped:not-applicable:" + kind.name
+	}
+	hb := hbref.NewFace(data, 0)
+	n := hb.GlyphCount()
+	etr := traitsOfFace(tr.File, 0, hb)
+	hb.Close()
+	if n == 0 || n != tr.NumGlyphs {
+		return nil, "edit-skipped:rejected-by-libharfbuzz:" + kind.name
+	}
+	ft, err := ftref.NewFace(data, 0)
+	if err != nil {
+		return nil, "edit-skipped:rejected-by-freetype:" + kind.name
+	}
+	ft.Close()
+	cs := Case{File: tr.File, Index: 0, Setting: "default", Edit: kind.name, EditSeed: seed}
+	faces, err := parsePort(data)
+	if err != nil || len(faces) != 1 {
+		// a legal shape that both references accept
+		(&fctx{tr: etr}).violate(t, "edit-load", cs, "font-refused", fmt.Sprint(err), "libharfbuzz and FreeType open the edited font")
+		return nil, "edit-skipped:port-refuses:" + kind.name
+	}
+	c, reason := openFaceData(etr, data, faces[0].Font)
+	if c != nil {
+		c.edit, c.editSeed = kind.name, seed
+	}
+	return c, reason
+}
+
+type editUnit struct {
+	tr   faceTraits
+	kind *editKind
+	seed uint64
+}
+
+// editPlan draws, for every edit kind, the corpus fonts to edit: rotated by VERIF_SEED.
+func editPlan() []editUnit {
+	var out []editUnit
+	for ki := range editKinds {
+		kind := &editKinds[ki]
+		var cand, rich []faceTraits
+		for _, tr := range corpusTraits() {
+			if kind.eligible(&tr) {
+				cand = append(cand, tr)
+				if tr.NComposite >= 30 {
+					rich = append(rich, tr)
+				}
+			}
+		}
+		k := ev.Scale(2, 10)
+		composite := strings.HasPrefix(kind.name, "glyf-composite")
+		if composite {
+			k = ev.Scale(3, 16)
+			if !ev.Thorough() && len(rich) >= k {
+				cand = rich // the quick tier edits fonts with many composites: every flag combination occurs
+			}
+		}
+		rng := ev.NewRand(uint64(ev.Seed())*0x9E3779B97F4A7C15 ^ hashStr(kind.name))
+		for i := 0; i < k && len(cand) > 0; i++ {
+			j := rng.Intn(len(cand))
+			if i%2 == 0 {
+				// every other pick is a font of some size (the corpus is full of 3-glyph test fonts)
+				var big []int
+				for x := range cand {
+					if cand[x].NumGlyphs >= 200 {
+						big = append(big, x)
+					}
+				}
+				if len(big) > 0 {
+					j = big[rng.Intn(len(big))]
+				}
+			}
+			tr := cand[j]
+			cand = append(cand[:j], cand[j+1:]...)
+			out = append(out, editUnit{tr: tr, kind: kind, seed: uint64(ev.Seed())*1000003 ^ hashStr(kind.name+"/"+tr.File)})
+		}
+	}
+	return out
+}
+
+// hbSame is the editor's self-check for value-preserving edits: libharfbuzz must decode the
+// edited font exactly as the original.
+func hbSame(orig, edited *hbref.Face, n int) bool {
+	for g := uint32(0); g < uint32(n); g++ {
+		if orig.HAdvance(g) != edited.HAdvance(g) || orig.VAdvance(g) != edited.VAdvance(g) {
+			return false
+		}
+		e1, ok1 := orig.GlyphExtents(g)
+		e2, ok2 := edited.GlyphExtents(g)
+		if e1 != e2 || ok1 != ok2 {
+			return false
+		}
+		if same, _ := sameOutline(canonHB(orig.Outline(g)), canonHB(edited.Outline(g)), 0); !same {
+			return false
+		}
+	}
+	return true
+}
+
+// TestPropEdits compares the decoders on structure-preserving edits of corpus fonts (edits.go).
+func TestPropEdits(t *testing.T) {
+	plan := editPlan()
+	si, sn := ev.Shard()
+	for ui, u := range plan {
+		if ui%sn != si {
+			continue
+		}
+		runEdit(t, u)
+	}
+}
+
+func runEdit(t *testing.T, u editUnit) {
+	c, reason := openEdited(t, u.tr, u.kind, u.seed)
+	if c == nil {
+		ev.Label(reason)
+		return
+	}
+	defer c.close()
+	if u.kind.preserving {
+		orig, _ := os.ReadFile(absCorpus(u.tr.File))
+		oh := hbref.NewFace(orig, 0)
+		same := hbSame(oh, c.hb, c.nGlyphs)
+		oh.Close()
+		if !same {
+			ev.Label("edit-skipped:editor-self-check-failed:" + u.kind.name)
+			return
+		}
+	}
+	_, touched, _ := func() ([]byte, []uint32, bool) {
+		orig, _ := os.ReadFile(absCorpus(u.tr.File))
+		return applyEdit(orig, u.kind, u.seed)
+	}()
+	// glyphs to compare: all of them, or for larger fonts the edited ones plus every k-th
+	var glyphs []uint32
+	if c.nGlyphs <= 1500 {
+		for g := 0; g < c.nGlyphs; g++ {
+			glyphs = append(glyphs, uint32(g))
+		}
+	} else {
+		isT := map[uint32]bool{}
+		stride := len(touched)/1000 + 1
+		for i, g := range touched {
+			if i%stride == 0 {
+				isT[g] = true
+			}
+		}
+		k := uint32(c.nGlyphs/500 + 1)
+		for g := uint32(0); g < uint32(c.nGlyphs); g++ {
+			if isT[g] || g%k == uint32(u.seed%uint64(k)) {
+				glyphs = append(glyphs, g)
+			}
+		}
+	}
+	sets := []setting{{Name: "default"}}
+	if len(c.axes) > 0 {
+		all := settingsFor(u.tr.File+"#"+u.kind.name, 0, c.axes, avarKnees(c.hb.TableData(hbref.Tag("avar"))), ev.Seed(), 3)
+		extra := 0
+		for _, s := range all[1:] {
+			if s.Extra {
+				if extra >= 3 {
+					continue
+				}
+				extra++
+			}
+			sets = append(sets, s)
+		}
+	}
+	ev.Label("edit:" + u.kind.name)
+	for _, s := range sets {
+		c.apply(s)
+		n := int64(c.checkFace(t))
+		ev.CaseEnum(n, n)
+		var nt int64
+		for _, g := range glyphs {
+			if c.checkGlyph(t, g) {
+				nt++
+			}
+		}
+		ev.CaseEnum(int64(len(glyphs)), nt)
+		ev.LabelN("edit-glyph-comparisons:"+u.kind.name, int64(len(glyphs)))
+		ev.LabelN("glyphs", int64(len(glyphs)))
+		ev.LabelN("glyphs-with-outline", nt)
+		if c.isVar {
+			ev.LabelN("nontrivial:variable-at-non-default-coords", nt)
+		}
+	}
+	if ev.WantSample() {
+		ev.Sample(Case{File: u.tr.File, Setting: "default", Edit: u.kind.name, EditSeed: u.seed, What: fmt.Sprintf("%d glyphs compared under %d settings, %d glyph records edited", len(glyphs), len(sets), len(touched))})
 	}
 }
